@@ -24,7 +24,7 @@ type TreeCacheClient interface {
 	ReadRunningFull(ctx context.Context) ([]*cache.Update, error)
 	GetBranchesHighesPrecedence(ctx context.Context, path []string, filters ...CacheUpdateFilter) int32
 	ReadCurrentUpdatesHighestPriorities(ctx context.Context, ccp PathSlices, count uint64) UpdateSlice
-	IntendedPathExists(ctx context.Context, path []string) (bool, error)
+	IntendedPathExists(ctx context.Context, path []string, filters ...CacheUpdateFilter) (bool, error)
 	ReadUpdatesOwner(ctx context.Context, owner string) UpdateSlice
 }
 
@@ -50,7 +50,8 @@ func NewTreeCacheClient(datastore string, cc cache.Client) *TreeCacheClientImpl 
 	}
 }
 
-func (t *TreeCacheClientImpl) IntendedPathExists(ctx context.Context, path []string) (bool, error) {
+// IntendedPathExists reports if the intended store holds an entry for the path that passes the filters.
+func (t *TreeCacheClientImpl) IntendedPathExists(ctx context.Context, path []string, filters ...CacheUpdateFilter) (bool, error) {
 	t.intendedStoreIndexMutex.RLock()
 	if t.intendedStoreIndex == nil {
 		t.intendedStoreIndexMutex.RUnlock()
@@ -58,8 +59,16 @@ func (t *TreeCacheClientImpl) IntendedPathExists(ctx context.Context, path []str
 		t.intendedStoreIndexMutex.RLock()
 	}
 	defer t.intendedStoreIndexMutex.RUnlock()
-	_, exists := t.intendedStoreIndex[strings.Join(path, KeysIndexSep)]
-	return exists, nil
+	entries, exists := t.intendedStoreIndex[strings.Join(path, KeysIndexSep)]
+	if !exists {
+		return false, nil
+	}
+	for _, e := range entries {
+		if ApplyCacheUpdateFilters(e, filters) {
+			return true, nil
+		}
+	}
+	return false, nil
 }
 
 func (c *TreeCacheClientImpl) Read(ctx context.Context, opts *cache.Opts, paths [][]string) []*cache.Update {
